@@ -1059,14 +1059,22 @@ impl SideMetadataSpec {
         if !data_addr.is_mapped() {
             return None;
         }
-        // Quick check if the current data_addr has a non zero value.
-        if !unsafe { self.load::<T>(data_addr).is_zero() } {
-            return Some(data_addr.align_down(1 << self.log_bytes_in_region));
-        }
-
         // Figure out the start and end data address.
         let start_addr = data_addr.saturating_sub(search_limit_bytes) + 1usize;
         let end_addr = data_addr;
+
+        // Quick check if the current data_addr has a non zero value.
+        if !unsafe { self.load::<T>(data_addr).is_zero() } {
+            // The region of `data_addr` is only a result if its (aligned) address lies within the
+            // search range; all other regions in the range are above its start, so there is
+            // nothing else to find otherwise.
+            let region_start = data_addr.align_down(1 << self.log_bytes_in_region);
+            return if region_start >= start_addr {
+                Some(region_start)
+            } else {
+                None
+            };
+        }
 
         // Then figure out the start and end metadata address and bits.
         // The start bit may not be accurate, as we map any address in the region to the same bit.
